@@ -144,8 +144,11 @@ def _devsel_extra():
     import os
     from vbuild import BUILD
     out = []
-    for e, prof in (("rc", "asan"), ("rp", "asan"), ("fz", "fuzz")):
-        hd = os.path.join(BUILD, prof, "devsel_" + e, "helpers")
+    for e, exeprof in (("rc", "asan"), ("rp", "asan"), ("fz", "fuzz")):
+        # helper libraries are never coverage-instrumented: libFuzzer keeps pointers to the counters of
+        # every module it saw, and these libraries are dlclosed again by the loader
+        prof = "asan"
+        hd = os.path.join(BUILD, exeprof, "devsel_" + e, "helpers")
         for slot in range(6):
             t = Target("devsel_tramp%d_%s" % (slot, e), prof)
             t.verif("engine/devsel_tramp.c", ["-DSLOT=%d" % slot])
